@@ -380,6 +380,15 @@ def probe_state(deep=True):
         want_names = set(base0) | (scope1 if nm == 'CHECK_TEMPLATE' else set())
         if set(Fired.log) != want_names:
             fired0 = fired0 + [f'{nm}-USES-{sorted(set(Fired.log))}']
+        # ... and wherever the instruction stands: inside the clause of a
+        # block construct the same entries are used
+        from . import c09 as _c09
+        for blk in ('EXCEPT', 'ELSE', 'TRY', 'LOOP', 'CALL', 'EVAL', 'IF'):
+            run_prog(_c09.place((blk,), prog))
+            if set(Fired.log) != want_names:
+                fired0 = fired0 + [f'{nm}-IN-{blk}-USES-'
+                                   f'{sorted(set(Fired.log))}']
+                break
     # the application's own scope, used the way an added instruction uses it:
     # run_plugins on the tape of a run
     Fired.log = []
